@@ -93,6 +93,15 @@ theorem afterDefer_fields (x : Act) :
   unfold Act.afterDefer
   split <;> simp
 
+theorem next_out (x : Act) (cs : List Cmd) (i : Nat) : (x.next cs i).out = x.out := by
+  unfold Act.next
+  split
+  split <;> simp
+
+theorem afterDefer_out (x : Act) : x.afterDefer.out = x.out := by
+  unfold Act.afterDefer
+  split <;> simp
+
 /-- a local step changes neither the kids, the task definition, the kind nor the call mode,
 and no step leaves phase `done` -/
 theorem stepLocal_frame (F : Flags) (o : Obs) (x : Act) (ev : Ev) (y : Act) (eff : Eff)
